@@ -129,6 +129,11 @@ def gen_cases(rng, tier, scale):
             call, base = '{{> p c}}', data['c']
         elif form == 'hash':
             call, base, add = '{{> p k=hv j=7}}', data, {'k': data['hv'], 'j': 7}
+            if rng.random() < 0.3 and isinstance(data, dict) and data:
+                over = rng.choice(sorted(set(data) - {'k', 'j'}))          # an existing field overridden by a value that is missing
+                call, add = '{{> p k=hv j=7 %s=zz9.nope}}' % over if over.isidentifier() else call, dict(add)
+                if over.isidentifier():
+                    add[over] = None
         elif form == 'ctxhash':
             call, base, add = '{{> p c name="N" k=(lookup this "hv")}}', data['c'], {'name': 'N', 'k': data['hv']}
         elif form == 'lit':
@@ -155,6 +160,15 @@ def gen_cases(rng, tier, scale):
         ('{{#each l as |v|}}{{> p}}{{/each}}', {'p': '[{{v}}{{@index}}{{../x}}{{@root.x}}]'}, {'l': [1], 'x': 'X'}, ('ok', '[X]')),
         ('{{#with o}}{{> p}}{{/with}}', {'p': '[{{a}}{{../a}}]'}, {'a': 'OUT', 'o': {'a': 'IN'}}, ('notin', 'OUT')),
         ('{{> main}}', {}, {}, ('err', 'CannotIncludeSelf', '-')),
+        # a hash argument bound to a path that designates nothing still overrides the context's field (with null)
+        ('{{> p title=nope}}', {'p': '[{{title}}|{{body}}]'}, {'title': 'T', 'body': 'B'}, ('ok', '[|B]')),
+        ('{{> p title=nul}}', {'p': '[{{title}}|{{body}}]'}, {'title': 'T', 'body': 'B', 'nul': None}, ('ok', '[|B]')),
+        ('{{> p c title=c.nope}}', {'p': '[{{title}}]'}, {'c': {'title': 'CT'}}, ('ok', '[]')),
+        ('{{#> p x=nope}}{{x}}{{/p}}', {'p': '({{x}}:{{> @partial-block}})'}, {'x': 'outer'}, ('ok', '(:)')),
+        ('{{#each l}}{{> p k=../nope}}{{/each}}', {'p': '({{k}})'}, {'l': [{'k': 1}, {'k': 2}]}, ('ok', '()()')),
+        ('{{#with o}}{{> p a=nope b=2}}{{/with}}', {'p': '({{a}},{{b}},{{c}})'}, {'o': {'a': 'A', 'b': 'B', 'c': 'C'}}, ('ok', '(,2,C)')),
+        ('{{> p title=(lookup this "nope")}}', {'p': '[{{title}}|{{body}}]'}, {'title': 'T', 'body': 'B'}, ('ok', '[|B]')),
+        ('{{> p title=nope}}{{title}}', {'p': '[{{#if title}}set{{else}}unset{{/if}}]'}, {'title': 'T'}, ('ok', '[unset]T')),
     ]
     for k, (t, parts, d, exp) in enumerate(fixed):
         cases.append(rcase(f'f{k}', t, d, partials=parts, entry=0, kind='fixed', exp=exp, grp=f'f{k}', tags=['fixed']))
